@@ -234,8 +234,23 @@ class Own:
             elif k == "reload":
                 if sum(1 for x in p.modules if isinstance(x, Output)) > 1:
                     return "skip"  # a project with a second Output is not a savable in-domain project
+                from rv.pattern import Pattern
+
+                def cell_modules(proj):
+                    return [[[n.module for n in line] for line in x.data] if isinstance(x, Pattern) else None
+                            for x in proj.patterns]
+                want_cells = cell_modules(p)
                 L["p"] = C.load_bytes(C.save(p))
                 L["origin"] = "loaded"
+                # which module each cell names is part of the ownership picture: it must survive the reload, also for a
+                # cell that carries nothing but a module number
+                got_cells = cell_modules(L["p"])
+                while want_cells and want_cells[-1] is None:
+                    want_cells.pop()
+                while got_cells and got_cells[-1] is None:
+                    got_cells.pop()
+                if got_cells != want_cells:
+                    L["viol"].append(C.viol("note-module-numbers-changed-by-reload", {"op": k}, {"before": want_cells, "after": got_cells}))
                 return "ok"
         except (ModuleOwnershipError, PatternOwnershipError) as e:
             outcome = "raise:" + type(e).__name__
@@ -274,7 +289,13 @@ class Own:
         p = L["p"]
         hidden = tuple(sorted((k, v) for k, v in vars(p).items()
                               if k.startswith("_") and isinstance(v, (int, bool, str, type(None)))))
-        return self.layout(L) + (L.get("origin", "built"), hidden)
+        from rv.pattern import Pattern
+
+        # ... and the module number every cell carries (a bulk edit changes nothing else; without it the state after
+        # a bulk edit would be merged with the one before and never be reloaded)
+        cells = tuple(tuple(n.module for line in x.data for n in line) if isinstance(x, Pattern) else None
+                      for x in p.patterns)
+        return self.layout(L) + (L.get("origin", "built"), hidden, cells)
 
     def invariant(self, L):
         from rv.modules.output import Output
